@@ -239,6 +239,13 @@ fn adv_scenario(rng: &mut StdRng, sc: usize, out: Box<dyn std::io::Write>, kv: &
         env.refresh(&mut sim);
         if r % 3 == 1 {
             env.rpc_fetch_tx(&mut sim, rng.gen_range(0..ntx));
+            // ... and one that is on no peer's chain (a transaction of the fork branch): the same request then
+            // holds a transaction the peer finds and one it reports missing
+            let off: Vec<usize> = sim.chain.txs.iter().filter(|t| t.index > 0 && !sim.chain.is_ancestor(t.block, leaf)).map(|t| t.id).collect();
+            if !off.is_empty() && rng.gen_bool(0.7) {
+                let t = off[rng.gen_range(0..off.len())];
+                env.rpc_fetch_tx(&mut sim, t);
+            }
             let nb = sim.chain.blocks.len();
             env.rpc_fetch_header(&mut sim, rng.gen_range(0..nb));
             env.fetch_tick(&mut sim);
